@@ -22,7 +22,10 @@ def scenario(rng, k, crash=None, git=False, dirty=False):
     proj = G.base_project(rng, git=git)
     steps = [G.run_step(rng, 100, again=False, p_fail=0.35, jobs=rng.choice([None, 2]))]
     if git:
-        steps.append({"cmd": "git", "ops": [["checkout", 0]] + ([["dirty"]] if rng.random() < 0.5 else [])})
+        # the work tree after the checkout: clean | edited | edited and staged (work tree == index != HEAD) | a new file added
+        # to the index | only an untracked file (which does not make the tree dirty)
+        steps.append({"cmd": "git", "ops": [["checkout", 0]] + rng.choice([[], [["dirty"]], [["dirty"], ["stage"]], [["staged_new"]],
+                                                                         [["untracked"]], [["dirty"], ["stage"], ["dirty"]]])})
     steps.append(G.run_step(rng, 160, target=rng.choice(["//:all", "//pk:b", "//:a"]), again=True, p_fail=0.35,
                             jobs=rng.choice([None, 2])))
     steps.append({"cmd": "archive", "argv": ["archive", "-o", "../A.tar.gz"], "out": "../A.tar.gz", "sel": {}})
@@ -55,7 +58,7 @@ def main(tier):
         return rep.finish()
     nbase = 4 if tier == "quick" else 40
     seeds = [rng.randrange(1 << 30) for _ in range(nbase)]
-    base = [scenario(random.Random(s), k, git=(k % 2 == 1), dirty=(k % 4 == 3)) for k, s in enumerate(seeds)]
+    base = [scenario(random.Random(s), k, git=(k % 2 == 1), dirty=("staged" if k % 8 == 7 else (k % 4 == 3))) for k, s in enumerate(seeds)]
     hists, traces, verdicts, tr, other, nontriv = F.run_and_judge(rep, base, CLAUSES, sig_fn=sig)
     crash_scns = []
     per_cmd = {}
@@ -76,7 +79,7 @@ def main(tier):
                 pts = sorted(rng.sample(pts, min(len(pts), 8)))
             for c in pts:
                 crash_scns.append(scenario(random.Random(seeds[k]), len(crash_scns), crash=(si, c), git=(k % 2 == 1),
-                                           dirty=(k % 4 == 3)))
+                                           dirty=("staged" if k % 8 == 7 else (k % 4 == 3))))
                 per_cmd[st["cmd"]] = per_cmd.get(st["cmd"], 0) + 1
     h2, t2, v2, tr2, other2, nontriv2 = F.run_and_judge(rep, crash_scns, CLAUSES, sig_fn=sig)
     crashed = sum(1 for t in t2 for s in t["steps"] if s["crashed"])
